@@ -10,5 +10,5 @@ class Trashee(NamedTuple('FileToBeTrashed', [
 
 
 def should_skipped_by_specs(path):
-    basename = os.path.basename(path)
+    basename = os.path.basename(path.rstrip(os.path.sep))
     return (basename == ".") or (basename == "..")
